@@ -87,6 +87,10 @@ def build_inputs(tier):
         g = pyprog.gen_program(r, fstrings=True, maxdepth=3, nstmts=2)
         if g:
             base.append((g[0], "exec"))
+    from harness.props import c11
+
+    for s in ["x = not 'abc\n", "x = -'abc\n", "y = a if b else 'abc\n", "f(k='abc)\n", "lambda: 'x\n", "x = 'abc\n", "z = (1, 'q\n", "if a:\n    b\n  c\n", "w = [\n"] + list(c11.INVALID_SNIPPETS[:60]):
+        cases.append((s, "exec", None))
     for s, m in list(base):
         cases.append((s, m, None))
         if r.random() < 0.5:
